@@ -10,7 +10,7 @@ import (
 	"strings"
 
 	kmip "github.com/ovh/kmip-go"
-	_ "github.com/ovh/kmip-go/payloads"
+	"github.com/ovh/kmip-go/payloads"
 	"github.com/ovh/kmip-go/ttlv"
 
 	"verif/harness/core"
@@ -153,7 +153,7 @@ func nOf(q, t int) func(string) int {
 
 // Required coverage: every operation × direction, object type, key format, standard attribute.
 func required() []string {
-	req := []string{"messages", "cov.ext-after-payload:req", "cov.ext-after-payload:resp", "cov.keyvalue:wrapped", "cov.keyvalue:absent", "cov.attr:custom", "cov.op:unknown",
+	req := []string{"messages", "large.byte-string", "large.long-batch", "cov.ext-after-payload:req", "cov.ext-after-payload:resp", "cov.keyvalue:wrapped", "cov.keyvalue:absent", "cov.attr:custom", "cov.op:unknown",
 		"cov.credential:0", "cov.credential:1", "cov.credential:2", "negative_bigints", "cov.message-and-async-value", "cov.ext-without-payload:resp"}
 	for _, o := range gen.Ops {
 		req = append(req, "cov.op:"+o.Name+":req", "cov.op:"+o.Name+":resp")
@@ -213,6 +213,52 @@ func RunCase(c *core.Ctx, r *core.Rand, i int) {
 	}
 }
 
+// LargeCase: messages far larger than the usual ones: one big byte string (sizes around 8 KiB, 64 KiB, up to 600 KiB)
+// or a long batch (200..1200 items), so that the encoder's buffer grows while structures are still open.
+func LargeCase(c *core.Ctx, r *core.Rand, i int) {
+	minor := i % 5
+	g := gen.New(r, gen.Mode{Minor: minor, Gate: true, Text: gen.TextBinary}, refmodel.Gates())
+	var msg any
+	kind := i % 4
+	sizes := []int{8000, 8100, 8184, 8192, 8200, 8300, 16384, 65536, 70000, 300000, 600000}
+	switch kind {
+	case 0: // big opaque data inside a request payload
+		m := g.Request(nil)
+		n := sizes[(i/4)%len(sizes)] + r.Intn(9)
+		m.BatchItem = append(m.BatchItem, kmip.RequestBatchItem{Operation: kmip.OperationRegister,
+			RequestPayload: &payloads.RegisterRequestPayload{ObjectType: kmip.ObjectTypeOpaqueObject, Object: &kmip.OpaqueObject{OpaqueDataType: 1, OpaqueDataValue: r.Bytes(n)}}})
+		m.Header.BatchCount = int32(len(m.BatchItem))
+		msg = &m
+		c.Count("large.byte-string", 1)
+	case 1: // big certificate in a response, nested three structures deep
+		m := g.Response(nil)
+		n := sizes[(i/4)%len(sizes)] + r.Intn(9)
+		m.BatchItem = append(m.BatchItem, kmip.ResponseBatchItem{Operation: kmip.OperationGet, ResultStatus: kmip.ResultStatusSuccess,
+			ResponsePayload: &payloads.GetResponsePayload{ObjectType: kmip.ObjectTypeCertificate, UniqueIdentifier: "c", Object: &kmip.Certificate{CertificateType: kmip.CertificateTypeX_509, CertificateValue: r.Bytes(n)}}})
+		m.Header.BatchCount = int32(len(m.BatchItem))
+		msg = &m
+		c.Count("large.byte-string", 1)
+	case 2: // long batch of small request items
+		m := g.Request(nil)
+		for k, n := 0, 200+r.Intn(1000); k < n; k++ {
+			m.BatchItem = append(m.BatchItem, kmip.RequestBatchItem{Operation: kmip.OperationActivate, UniqueBatchItemID: []byte{byte(k), byte(k >> 8)}, RequestPayload: &payloads.ActivateRequestPayload{UniqueIdentifier: fmt.Sprint("id-", k)}})
+		}
+		m.Header.BatchCount = int32(len(m.BatchItem))
+		msg = &m
+		c.Count("large.long-batch", 1)
+	default: // long batch of generated response items
+		m := g.Response(nil)
+		for k, n := 0, 40+r.Intn(100); k < n; k++ {
+			more := g.Response(nil)
+			m.BatchItem = append(m.BatchItem, more.BatchItem...)
+		}
+		m.Header.BatchCount = int32(len(m.BatchItem))
+		msg = &m
+		c.Count("large.long-batch", 1)
+	}
+	CheckMessage(c, "C01", msg, minor, fmt.Sprintf("large message, kind %d, case %d", kind, i))
+}
+
 func Spec() *core.Spec {
 	_ = kmip.V1_4
 	return &core.Spec{
@@ -226,6 +272,7 @@ func Spec() *core.Spec {
 		Required: required(),
 		Families: []core.Family{
 			{Name: "messages", N: nOf(54000, 4050000), Run: RunCase},
+			{Name: "large", N: nOf(88, 4400), Run: LargeCase},
 		},
 	}
 }
